@@ -12,6 +12,8 @@ Definition str := list N.
 Definition s2b (s : string) : str :=
   List.map N_of_ascii (list_ascii_of_string s).
 
+Definition nl : str := [10].
+
 Fixpoint str_eqb (a b : str) : bool :=
   match a, b with
   | [], [] => true
@@ -96,16 +98,22 @@ Definition dec (n : N) : str := dec_aux (S (N.to_nat (N.log2 n))) n [].
 Inductive outcome (A : Type) : Type :=
 | Ok (a : A)
 | Err (msg : str)          (* the Go code returned an error *)
-| Panic (site : str).      (* the Go code would panic at [site] *)
+| Panic (site : str)       (* the Go code would panic at [site] *)
+| Fuel                     (* the model ran out of fuel (excluded by the termination lemmas) *)
+| Unsup (why : str).       (* the input leaves the modelled fragment (counted out-of-model) *)
 Arguments Ok {A} a.
 Arguments Err {A} msg.
 Arguments Panic {A} site.
+Arguments Fuel {A}.
+Arguments Unsup {A} why.
 
 Definition obind {A B} (m : outcome A) (f : A -> outcome B) : outcome B :=
   match m with
   | Ok a => f a
   | Err e => Err e
   | Panic s => Panic s
+  | Fuel => Fuel
+  | Unsup w => Unsup w
   end.
 Notation "'do' x <- m ; f" := (obind m (fun x => f))
   (at level 200, x pattern, m at level 100, f at level 200, right associativity).
